@@ -1,4 +1,5 @@
 import CJ.Lemmas.Covert
+import CJ.Lemmas.Config
 /-!
 # C06 — the station never dials a covert address that policy forbids
 
@@ -91,6 +92,67 @@ theorem accepted_inside_allowlist (env : Env Net Pat IP) (pol : Policy Net Pat) 
   unfold Forbids at hf
   simp only [hal, if_true] at hf
   exact Classical.not_not.mp hf
+
+/-! ### every configuration in force — also one put in force by a reload
+
+"Every station configuration" includes the configurations a running station is given by SIGHUP.  The reload
+model is C19's (`CJ.Config.reloads`: per reload the outcome of the configuration load, of the subnets file
+and of the GeoIP databases); the policy in force afterwards is that of the last configuration that loaded
+(`CJ.Config.lastPolicy`), whatever happened to the other two loading steps. -/
+
+section reload
+open CJ.Config
+variable {Sel Geo : Type}
+
+/-- after any sequence of reloads admission decides exactly as under the last configuration that loaded -/
+theorem admission_after_reloads (env : Env Net Pat IP) (st : Station Sel (Policy Net Pat) Geo)
+    (evs : List (Outcome (Policy Net Pat) × Option Sel × GeoLoad Geo)) (hnp : ∀ ev ∈ evs, ev.1 ≠ .panic)
+    (a : Answers) (rs : Resolver IP) (n : Nat) :
+    ∃ st', reloads st evs = .ok st' ∧
+      parseOrResolve env st'.policy a rs n = parseOrResolve env (lastPolicy st.policy evs) a rs n :=
+  ⟨_, reloads_eq_last evs st hnp, rfl⟩
+
+/-- **Accepted after reloads ⇒ permitted by the configuration in force**: whatever the running station
+accepts after any sequence of reloads — with any subset of subnets files and GeoIP databases failing along the
+way — is a literal that the last configuration that loaded does not forbid and whose host matched none of
+*its* domain patterns. -/
+theorem accepted_after_reloads_is_permitted (env : Env Net Pat IP) (st st' : Station Sel (Policy Net Pat) Geo)
+    (evs : List (Outcome (Policy Net Pat) × Option Sel × GeoLoad Geo)) (hnp : ∀ ev ∈ evs, ev.1 ≠ .panic)
+    (hst : reloads st evs = .ok st')
+    (a : Answers) (rs : Resolver IP) (n : Nat) (h : (parseOrResolve env st'.policy a rs n).out ≠ "") :
+    ∃ host port ip,
+      a.split = some (host, port) ∧ a.portOk = true ∧
+      (∀ p ∈ (lastPolicy st.policy evs).domains, env.matchString p host = false) ∧
+      rs n = .addr (some ip) "" ∧ env.unspecified ip = false ∧
+      ¬ Forbids env (lastPolicy st.policy evs) ip ∧
+      (parseOrResolve env st'.policy a rs n).out = joinHostPort (env.ipText ip) port := by
+  have hp : st'.policy = lastPolicy st.policy evs := by
+    rw [reloads_eq_last evs st hnp] at hst
+    cases hst; rfl
+  rw [hp] at h ⊢
+  exact accepted_is_permitted_literal env _ a rs n h
+
+/-- in particular a reload whose GeoIP databases (or subnets file) fail while its configuration loads puts
+the **new** policy in force: an address the new configuration forbids is not accepted afterwards -/
+theorem forbidden_by_reloaded_policy_rejected (env : Env Net Pat IP) (st : Station Sel (Policy Net Pat) Geo)
+    (pol : Policy Net Pat) (sel : Option Sel) (geo : GeoLoad Geo)
+    (a : Answers) (rs : Resolver IP) (n : Nat) (ip : IP) (zone : String) (hr : rs n = .addr (some ip) zone)
+    (hf : Forbids env pol ip) :
+    ∃ st', reload st (.ok pol) sel geo = .ok st' ∧ (parseOrResolve env st'.policy a rs n).out = "" := by
+  refine ⟨onReload st sel pol geo, rfl, ?_⟩
+  have hpol : (onReload st sel pol geo).policy = pol := by
+    cases sel <;> cases geo <;> rfl
+  rw [hpol]
+  cases hacc : decide ((parseOrResolve env pol a rs n).out = "") with
+  | true => exact of_decide_eq_true hacc
+  | false =>
+    have hne : (parseOrResolve env pol a rs n).out ≠ "" := of_decide_eq_false hacc
+    obtain ⟨_, _, ip', _, _, _, hr', _, hnf, _⟩ := accepted_is_permitted_literal env pol a rs n hne
+    rw [hr] at hr'
+    cases hr'
+    exact absurd hf hnf
+
+end reload
 
 /-- the literal conjunction of the property text -/
 def accepted_is_permitted_literal_full : Prop :=
